@@ -44,7 +44,7 @@ def c10_scenarios(tier, seed):
         for seq in itertools.product(small, repeat=n):
             scs.append({"kind": "alloc", "id": f"e{k}", "scripts": [list(seq)], "schedule": {"source": "tape"}})
             k += 1
-    for j in range(400 if tier == "quick" else 3000):
+    for j in range(1000 if tier == "quick" else 10000):
         threads = rnd.choice([1, 1, 2, 3, 4, 8])
         n = rnd.choice([3, 10, 30]) if tier == "quick" else rnd.choice([3, 10, 60, 300])
         scripts = [[rand_op(rnd) for _ in range(n)] for _ in range(threads)]
@@ -62,7 +62,7 @@ def c09_scenarios(tier, seed):
     rnd = random.Random(seed * 911 + 2)
     scs = []
     aligns = [1, 2, 4, 8, 16, 64, 4096]
-    for j in range(300 if tier == "quick" else 3000):
+    for j in range(800 if tier == "quick" else 10000):
         scripts = []
         for _ in range(rnd.choice([1, 1, 2, 3])):
             ops = []
@@ -98,7 +98,7 @@ KEEP = {"reset", "alloc_clear", "alloc_step", "alloc_peek", "req", "inner", "ret
 def galloc_traces(tier, seed):
     V.build_harness()
     path = os.path.join(V.WORK, "C09.galloc.ndjson")
-    runs = 6 if tier == "quick" else 60
+    runs = 10 if tier == "quick" else 120
     with open(path, "w") as f:
         for i in range(runs):
             p = subprocess.run([GALLOC, str(seed * 100 + i + 1), str(1 + i % 6), str(20 + 15 * (i % 5))],
